@@ -139,6 +139,10 @@ def saturated_rendering(ctx, res, rng):
     subsets = [[i] for i in range(22)] + [sorted(rng.sample(range(22), rng.randrange(2, 8))) for _ in range(10 if quick else 200)]
     for sub in subsets:
         v = [rng.randrange(0, 50) for _ in range(22)]
+        # large unsaturated values: around 2^31 / 2^63 (a signed conversion would turn them negative) and cap - 1
+        for i in rng.sample(range(22), 4):
+            if i not in sub:
+                v[i] = rng.choice([2**63, 2**63 + 1, 2**64 - 2, 2**63 - 1]) if i in W64 else rng.choice([2**31, 2**31 + 1, 2**32 - 2])
         for i in sub:
             v[i] = C64 if i in W64 else C32
         for th in (thresholds if len(sub) == 1 else rng.sample(thresholds, 3)):
@@ -162,12 +166,19 @@ def saturated_rendering(ctx, res, rng):
             continue
         import json as _json
         j1 = _json.loads(bytes.fromhex(parts["J1"]))
+        j2 = _json.loads(bytes.fromhex(parts["J2"]))
         import scenario as S
-        for i in sub:
+        from props import c11 as _c11
+        v2sym = {idx: sym for idx, sym, _w, _r in _c11.ITEMS}
+        for i in range(22):
             if j1.get(S.HIST_KEYS[i]) != v[i]:
-                res.violations.append(vlib.Violation("JSON does not carry the capacity for a saturated quantity",
+                res.violations.append(vlib.Violation("JSON v1 does not carry the exact (or saturated) value of a quantity",
                                                      {"threshold": th, "values": v, "field": S.HIST_KEYS[i]},
                                                      expected=v[i], observed=j1.get(S.HIST_KEYS[i])))
+            if i in v2sym and j2.get(v2sym[i], {}).get("value") != v[i]:
+                res.violations.append(vlib.Violation("JSON v2 does not carry the exact (or saturated) value of a quantity",
+                                                     {"threshold": th, "values": v, "item": v2sym[i]},
+                                                     expected=v[i], observed=j2.get(v2sym[i], {}).get("value")))
     res.coverage_extra["saturated_rendering_cases"] = len(reqs)
 
 
